@@ -10,6 +10,7 @@
 
 #include "libphysica/Special_Functions.hpp"
 #include "libphysica/Statistics.hpp"
+#include "libphysica/Verif_Hooks.hpp"
 
 namespace libphysica
 {
@@ -37,6 +38,7 @@ double Adaptive_Simpson_Integration(std::function<double(double)> func, double a
 	double h	  = b - a;
 	double d	  = (a + c) / 2;
 	double e	  = (b + c) / 2;
+	LIBPHYSICA_VERIF_TICK("Simpson.panel");
 	double fd	  = func(d);
 	double fe	  = func(e);
 	double Sleft  = (h / 12) * (fa + 4 * fd + fc);
@@ -108,6 +110,7 @@ std::vector<std::vector<double>> Compute_Gauss_Legendre_Roots_and_Weights(unsign
 		double z = cos(M_PI * (i + 0.75) / (n + 0.5));
 		while(true)
 		{
+			LIBPHYSICA_VERIF_TICK("GaussLegendre.newton");
 			double p1 = 1.0;
 			double p2 = 0.0;
 			for(unsigned int j = 0; j < n; j++)
@@ -306,10 +309,12 @@ double Integrate_MC_Vegas(std::function<double(std::vector<double>&, const doubl
 	// Initialize  captive, static random number generator
 	std::random_device rd;
 	std::mt19937 PRNG(rd());
+	LIBPHYSICA_VERIF_SEED(PRNG);
 
 	int ndim = region.size() / 2;
 	if(init <= 0)
 	{
+		LIBPHYSICA_VERIF_TICK("Vegas.init0");
 		mds = ndo = 1;
 		for(j = 0; j < ndim; j++)
 			xi[j][0] = 1.0;
@@ -322,6 +327,7 @@ double Integrate_MC_Vegas(std::function<double(std::vector<double>&, const doubl
 		ng = 1;
 		if(mds != 0)
 		{
+			LIBPHYSICA_VERIF_TICK("Vegas.stratify");
 			ng	= int(pow(ncall / 2.0 + 0.25, 1.0 / ndim));
 			mds = 1;
 			if((2 * ng - NDMX) >= 0)
@@ -350,6 +356,7 @@ double Integrate_MC_Vegas(std::function<double(std::vector<double>&, const doubl
 		}
 		if(nd != ndo)
 		{
+			LIBPHYSICA_VERIF_TICK("Vegas.regrid");
 			for(i = 0; i < std::max(nd, ndo); i++)
 				r[i] = 1.0;
 			for(j = 0; j < ndim; j++)
@@ -421,6 +428,10 @@ double Integrate_MC_Vegas(std::function<double(std::vector<double>&, const doubl
 			}
 			f2b = sqrt(f2b * npg);
 			f2b = (f2b - fb) * (f2b + fb);
+			if(f2b <= 0.0)
+			{
+				LIBPHYSICA_VERIF_TICK("Vegas.tiny_variance");
+			}
 			if(f2b <= 0.0)
 				f2b = TINY;
 			ti += fb;
@@ -538,6 +549,7 @@ double Integrate_MC_Brute_Force(std::function<double(std::vector<double>&, const
 {
 	std::random_device rd;
 	std::mt19937 PRNG(rd());
+	LIBPHYSICA_VERIF_SEED(PRNG);
 
 	double volume = MC_Volume(region);
 
@@ -570,6 +582,7 @@ void Miser(std::function<double(std::vector<double>&, const double)> func, std::
 	std::vector<double> pt(ndim);
 	if(npts < MNBS)
 	{
+		LIBPHYSICA_VERIF_TICK("Miser.leaf");
 		summ = summ2 = 0.0;
 		for(n = 0; n < npts; n++)
 		{
@@ -632,6 +645,10 @@ void Miser(std::function<double(std::vector<double>&, const double)> func, std::
 			}
 		}
 		if(jb == -1)
+		{
+			LIBPHYSICA_VERIF_TICK("Miser.fallback_dimension");
+		}
+		if(jb == -1)
 			jb = (ndim * iran) / 175000;
 		rgl	  = region[jb];
 		rgm	  = rmid[jb];
@@ -660,6 +677,7 @@ double Integrate_MC_Miser(std::function<double(std::vector<double>&, const doubl
 	// Initialize  captive, static random number generator
 	std::random_device rd;
 	std::mt19937 PRNG(rd());
+	LIBPHYSICA_VERIF_SEED(PRNG);
 
 	double dith = 0.0;
 	double average, var;
